@@ -21,8 +21,9 @@ structure Mon where
   insts   : List MonInst := []
 
 structure DState where
-  model : St
-  mon   : Mon := {}
+  model  : St
+  mon    : Mon := {}
+  queued : List (Nat × Op) := []   -- calls waiting for an allocator's mutex behind a parked call
 
 def parseFault : String → Fault
   | "before" => .errBefore
@@ -124,7 +125,7 @@ def splitStep (d : DState) (i n : Nat) (impl : String) : DState × StepOut :=
         (m', acc.2 ++ f')) (d.mon, [])
       (m, fs ++ (if vs.length = n then [] else [s!"sig=C04.split-response-wrong-id-count want={n} got={vs.length}"]))
     | _ => monitor d.mon (.alloc i .none) s!"err @{st}"
-  ({ model := s', mon := mon' }, { model := s!"{modelOut} @{s'.bound}", fails := fails })
+  ({ d with model := s', mon := mon' }, { model := s!"{modelOut} @{s'.bound}", fails := fails })
 
 def step (d : DState) (opLine : String) (impl : String) : DState × StepOut :=
   match words opLine with
@@ -136,9 +137,49 @@ def step (d : DState) (opLine : String) (impl : String) : DState × StepOut :=
     match parseOp ws with
     | none => (d, { model := "bad-op @0" })
     | some op =>
-      let (s', o) := PdModel.IdAlloc.step d.model op
-      let (mon', fails) := monitor d.mon op impl
-      ({ model := s', mon := mon' }, { model := s!"{o.toString} @{s'.bound}", fails := fails })
+      let instOf : Option Nat := match op with
+        | .alloc i _ | .rebase i _ => some i
+        | _ => none
+      let busy (i : Nat) : Bool := match d.model.insts[i]? with
+        | some x => x.pending.isSome
+        | none => false
+      match instOf with
+      | some i =>
+        if busy i && !(d.queued.any (·.1 == i)) then
+          -- Alloc / Rebase hold the allocator's mutex for their whole body: a second call waits
+          let (mon', fails) := monitor d.mon op impl
+          ({ d with queued := d.queued ++ [(i, op)], mon := mon' }, { model := s!"blocked @{d.model.bound}", fails := fails })
+        else
+          let (s', o) := PdModel.IdAlloc.step d.model op
+          let (mon', fails) := monitor d.mon op impl
+          ({ d with model := s', mon := mon' }, { model := s!"{o.toString} @{s'.bound}", fails := fails })
+      | none =>
+        let (s1, o) := PdModel.IdAlloc.step d.model op
+        match op, d.queued.find? (fun q => match op with | .finish i _ => q.1 == i | _ => false) with
+        | .finish i _, some (_, q) =>
+          -- the waiting call runs right after the parked one
+          let (s2, o2) := PdModel.IdAlloc.step s1 q
+          let (a, st) := parseImpl impl
+          let parts := (" ".intercalate a).splitOn " ; "
+          -- only the stored value after both calls is observed, so ownership of a window extension is judged
+          -- for the pair: the parked call owns it if it is the leader's and read the current value, the waiting
+          -- call (which reads at that moment) if it is the leader's
+          let (m1, f1) := monitor d.mon op s!"{parts.headD ""} @{st}"
+          let (m2, f2) := monitor m1 q s!"{parts.getD 1 ""} @{st}"
+          let notOwn (l : List String) := l.filter (fun x => !x.startsWith "sig=C04.extended-without-ownership")
+          let joint : List String :=
+            match d.mon.insts[i]? with
+            | some x =>
+              let isLeader := d.mon.leader == x.member && x.member != 0
+              if st != d.mon.stored && !isLeader then
+                [s!"sig=C04.extended-without-ownership inst={i} leader={d.mon.leader} member={x.member} (parked + waiting call) stored-before={d.mon.stored} stored-after={st}"]
+              else []
+            | none => []
+          ({ model := s2, mon := m2, queued := d.queued.filter (·.1 != i) },
+           { model := s!"{o.toString} ; {o2.toString} @{s2.bound}", fails := notOwn f1 ++ notOwn f2 ++ joint })
+        | _, _ =>
+          let (mon', fails) := monitor d.mon op impl
+          ({ d with model := s1, mon := mon' }, { model := s!"{o.toString} @{s1.bound}", fails := fails })
 
 def main : IO UInt32 :=
   runDriver ({ model := init PdModel.Generated.IdAlloc.allocStep } : DState) step
